@@ -121,6 +121,23 @@ static int eval3(const char *a, const char *b, uint64_t *dig)
             VH_CHECK(r[k] == r[0], "version_compare:determinism", "version_compare(%s, %s) = %d after stack fill 0x%02x / prior call #0 but %d after stack fill 0x%02x / prior call #%d",
                      vh_qs(a), vh_qs(b), r[0], SCRIBBLE[0], r[k], SCRIBBLE[k], k);
     }
+    /* the same two addresses in two consecutive calls, their contents exchanged in between: the answer is a function of the text, not of
+     * where it lives or of what was compared there before */
+    {
+        size_t la = strlen(a), lb = strlen(b), cap = (la > lb ? la : lb) + 1;
+        char *ba = malloc(cap), *bb = malloc(cap);
+        memcpy(ba, a, la + 1); memcpy(bb, b, lb + 1);
+        int s1 = norm(spiftool_version_compare((spif_charptr_t) ba, (spif_charptr_t) bb), a, b);
+        memcpy(ba, b, lb + 1); memcpy(bb, a, la + 1);
+        int s2 = norm(spiftool_version_compare((spif_charptr_t) ba, (spif_charptr_t) bb), b, a);
+        int s3 = norm(spiftool_version_compare((spif_charptr_t) b, (spif_charptr_t) a), b, a);
+        vh_evals(3);
+        vh_count("same_addresses_exchanged_contents", 1);
+        free(ba); free(bb);
+        VH_CHECK(s1 == r[0], "version_compare:determinism", "version_compare(%s, %s) = %d, but %d for the same text at other addresses", vh_qs(a), vh_qs(b), r[0], s1);
+        VH_CHECK(s2 == s3, "version_compare:determinism", "two consecutive calls with the same two addresses, contents exchanged in between: second call (now %s vs %s) = %d, the same texts at their own addresses give %d",
+                 vh_qs(b), vh_qs(a), s2, s3);
+    }
     return r[0];
 }
 
@@ -165,7 +182,8 @@ static void gen_number(sb_t *s)
     if (m < 55) snprintf(t, sizeof t, "%ld", vh_range(0, 12));
     else if (m < 80) snprintf(t, sizeof t, "%ld", vh_range(0, 120));
     else if (m < 88) snprintf(t, sizeof t, "%ld", vh_range(0, 99999999));
-    else if (m < 92) snprintf(t, sizeof t, "0%ld", vh_range(0, 99));                 /* leading zero */
+    else if (m < 90) snprintf(t, sizeof t, "0%ld", vh_range(0, 99));                 /* leading zero */
+    else if (m < 92) { snprintf(t, sizeof t, "%0*ld", (int) vh_range(19, 30), vh_coin(70) ? vh_range(0, 120) : vh_range(0, 999999999999L)); vh_count("zero_padded_components_of_19_to_30_digits", 1); }   /* many leading zeros: still a small number */
     else if (m < 96) snprintf(t, sizeof t, "%ld", 2147483640L + vh_range(0, 16));   /* around 2^31 */
     else snprintf(t, sizeof t, "%ld", vh_range(1000000000L, 999999999999999999L)); /* 10..18 digits */
     sb_adds(s, t);
